@@ -93,3 +93,30 @@ PROPS["C09"] = {
          "checks": {"quick": 150, "thorough": 1500}, "shards": {"quick": 2, "thorough": 8}},
     ],
 }
+
+GU = "internal/grpcutil"
+
+PROPS["C18"] = {
+    "level": "exploration",
+    "rule": ("round-trip laws on the exported conversion helpers over generated inputs: errors (codes 1-16, message unset/any UTF-8, 0-4 details of registered types with default and foreign type-URL prefixes) "
+             "through Connect and gRPC status forms; header lists (names in any case, repeated names also differing only in case, -bin names with padded/unpadded base64, 0-3 values) through metadata.MD, the outgoing context and http.Header; "
+             "arbitrary byte strings through percent-encoding with an independent decoder (escape predicate enumerated over all 256 bytes); arbitrary instances of 9 conformance message types (protoreflect-driven generator) through both strict codecs "
+             "(Marshal, MarshalStable, MarshalAppend) plus rejection of an appended/prepended unknown field of every wire type and of an unknown JSON key. Non-trivial: error with >=2 details; header list with a repeated or -bin key; "
+             "message needing escaping; message with a set optional/repeated/bytes field."),
+    "assumptions": ["conversion helpers may modify their input (ConvertMetadataToProtoHeader encodes in place): not asserted",
+                    "type-URL prefixes are normalised to the default prefix by the Connect form; only the type name and bytes must survive"],
+    "units": [
+        {"name": "C18ErrConnect", "pkg": INT, "test": "TestVerifC18ErrConnect", "kind": "rapid",
+         "checks": {"quick": 40000, "thorough": 200000}, "shards": {"quick": 1, "thorough": 8}},
+        {"name": "C18HTTPHeader", "pkg": INT, "test": "TestVerifC18HTTPHeader", "kind": "rapid",
+         "checks": {"quick": 40000, "thorough": 200000}, "shards": {"quick": 1, "thorough": 4}},
+        {"name": "C18Codec", "pkg": INT, "test": "TestVerifC18Codec", "kind": "rapid",
+         "checks": {"quick": 15000, "thorough": 60000}, "shards": {"quick": 2, "thorough": 16}},
+        {"name": "C18ErrGRPC", "pkg": GU, "test": "TestVerifC18ErrGRPC", "kind": "rapid",
+         "checks": {"quick": 40000, "thorough": 200000}, "shards": {"quick": 1, "thorough": 8}},
+        {"name": "C18Meta", "pkg": GU, "test": "TestVerifC18Meta", "kind": "rapid",
+         "checks": {"quick": 40000, "thorough": 200000}, "shards": {"quick": 1, "thorough": 8}},
+        {"name": "C18Percent", "pkg": GU, "test": "TestVerifC18Percent", "kind": "rapid",
+         "checks": {"quick": 40000, "thorough": 300000}, "shards": {"quick": 1, "thorough": 8}},
+    ],
+}
